@@ -31,8 +31,10 @@ theorem le16_ok (b : List UInt8) (h : b.length = 2) : ∃ n, le16 b = Outcome.ok
 theorem parse_tail_no_panic (o : Option Int) :
     (match o with
      | none => (Outcome.err : Outcome Footer)
-     | some off => Outcome.ok ⟨off, off, 0⟩) ≠ Outcome.panic := by
-  cases o <;> simp
+     | some off => if off < 0 then Outcome.err else Outcome.ok ⟨off, off, 0⟩) ≠ Outcome.panic := by
+  cases o with
+  | none => simp
+  | some off => simp only []; split <;> simp
 
 theorem gzipFooter_no_panic (len : Nat) (hdr : Option (List UInt8)) : gzipFooter len hdr ≠ Outcome.panic := by
   unfold gzipFooter
@@ -678,12 +680,11 @@ theorem treeLoop_no_panic (ents : List Ent) (t : Tree) : treeLoop ents t ≠ Out
 
 /-! ## fs/reader `file.ReadAt` -/
 
-/-- A chunk triple the arithmetic of `file.ReadAt` can digest: non-negative offset, no `int64`
-overflow in `chunkOffset + chunkSize`, and a size the process is able to allocate. -/
+/-- What is left to assume about a chunk triple since `chunkContains` (95288ee) checks the rest:
+the numbers are `int64`s (they are, in Go) and the size is one the process is able to allocate. -/
 structure ChunkSane (bound : Int) (c : Chunk) : Prop where
-  co0 : 0 ≤ c.co
-  sum : c.co + c.cs < 9223372036854775808
-  cs0 : -9223372036854775808 ≤ c.cs
+  co64 : I64 c.co
+  cs64 : I64 c.cs
   grow : c.cs ≤ bound
 
 theorem clampN_bounds (n len : Int) (h : 0 ≤ len) : 0 ≤ clampN n len ∧ clampN n len ≤ len := by
@@ -711,22 +712,54 @@ theorem hitRes_spec (c : Chunk) (nr expected lenP : Int) (hnr : 0 ≤ nr) (he0 :
     · simp
     · simp
 
-/-- Exact values of the discards when nothing wraps. -/
-theorem lowerOf_eq (off : Int) (c : Chunk) (hoff : 0 ≤ off) (hoff2 : off < 9223372036854775808) (hco : 0 ≤ c.co)
-    (hco2 : c.co < 9223372036854775808) : lowerOf off c = positive (off - c.co) := by
-  unfold lowerOf; rw [wrap64_id _ (by omega) (by omega)]
+theorem chunkContains_true {co cs pos : Int} (h : ¬ (chunkContains co cs pos = false)) :
+    cs > 0 ∧ co ≥ 0 ∧ cs ≤ 9223372036854775807 - co ∧ co ≤ pos ∧ pos - co < cs := by
+  unfold chunkContains at h
+  simpa using h
 
-theorem upperOf_eq (lenP off : Int) (c : Chunk) (hoff : 0 ≤ off) (hl : 0 ≤ lenP)
-    (hr : off + lenP < 9223372036854775808) (hco : 0 ≤ c.co) (hcs : 0 ≤ c.cs)
-    (hsum : c.co + c.cs < 9223372036854775808) :
-    upperOf lenP off c = positive (c.co + c.cs - (off + lenP)) := by
-  unfold upperOf
-  rw [wrap64_id (c.co + c.cs) (by omega) (by omega), wrap64_id (off + lenP) (by omega) (by omega),
-    wrap64_id _ (by omega) (by omega)]
+/-- Once the chunk contains the current position `off + nr` nothing in the discards wraps: they
+have their mathematical values, whatever `int64`s the offset, the length and the chunk are. -/
+theorem discards_exact (lenP off nr : Int) (c : Chunk) (hoff : I64 off) (hnr : 0 ≤ nr) (hnr2 : nr < lenP)
+    (hl : lenP < 9223372036854775808)
+    (hg : c.cs > 0 ∧ c.co ≥ 0 ∧ c.cs ≤ 9223372036854775807 - c.co ∧ c.co ≤ wrap64 (off + nr) ∧
+      wrap64 (off + nr) - c.co < c.cs) :
+    0 ≤ off + nr ∧ off + nr < 9223372036854775808 ∧
+      lowerOf off c = positive (off - c.co) ∧
+      upperOf lenP off c = positive (c.co + c.cs - (off + lenP)) ∧
+      expectedOf c (lowerOf off c) (upperOf lenP off c) =
+        c.cs - positive (c.co + c.cs - (off + lenP)) - positive (off - c.co) := by
+  obtain ⟨ho1, ho2⟩ := hoff
+  obtain ⟨g1, g2, g3, g4, g5⟩ := hg
+  have hP : 0 ≤ off + nr ∧ off + nr < 9223372036854775808 := by
+    unfold wrap64 at g4; omega
+  have hwP : wrap64 (off + nr) = off + nr := wrap64_id _ (by omega) (by omega)
+  rw [hwP] at g4 g5
+  have hlo : lowerOf off c = positive (off - c.co) := by
+    unfold lowerOf; rw [wrap64_id _ (by omega) (by omega)]
+  have hup : upperOf lenP off c = positive (c.co + c.cs - (off + lenP)) := by
+    unfold upperOf
+    rw [wrap64_id (c.co + c.cs) (by omega) (by omega)]
+    by_cases hq : off + lenP < 9223372036854775808
+    · rw [wrap64_id (off + lenP) (by omega) hq, wrap64_id _ (by omega) (by omega)]
+    · -- `offset + len(p)` wraps to a negative number; the difference wraps back below zero
+      have e1 : wrap64 (off + lenP) = off + lenP - 18446744073709551616 := by unfold wrap64; omega
+      rw [e1]
+      have e2 : wrap64 (c.co + c.cs - (off + lenP - 18446744073709551616)) = c.co + c.cs - (off + lenP) := by
+        unfold wrap64; omega
+      rw [e2]
+  refine ⟨hP.1, hP.2, hlo, hup, ?_⟩
+  rw [hlo, hup]
+  unfold expectedOf
+  have hu0 : 0 ≤ positive (c.co + c.cs - (off + lenP)) := positive_nonneg _
+  have hu1 : positive (c.co + c.cs - (off + lenP)) ≤ c.co + c.cs := by unfold positive; split <;> omega
+  have hl0 : 0 ≤ positive (off - c.co) := positive_nonneg _
+  have hl1 : positive (off - c.co) ≤ off + nr - c.co := by unfold positive; split <;> omega
+  rw [wrap64_id (c.cs - positive (c.co + c.cs - (off + lenP))) (by omega) (by omega)]
+  rw [wrap64_id _ (by omega) (by omega)]
 
-theorem missPath_spec (bound lenP nr off : Int) (c : Chunk) (hoff : 0 ≤ off) (hl : 0 ≤ lenP)
-    (hr : off + lenP < 9223372036854775808) (hnr : 0 ≤ nr) (hnr2 : nr < lenP) (hc : ChunkSane bound c)
-    (hcs : 0 < c.cs)
+theorem missPath_spec (bound lenP nr off : Int) (c : Chunk) (hoff : I64 off) (hl : lenP < 9223372036854775808)
+    (hnr : 0 ≤ nr) (hnr2 : nr < lenP) (hc : ChunkSane bound c)
+    (hg : ¬ (chunkContains c.co c.cs (wrap64 (off + nr)) = false))
     (he0 : 0 < expectedOf c (lowerOf off c) (upperOf lenP off c))
     (he1 : expectedOf c (lowerOf off c) (upperOf lenP off c) ≤ lenP - nr) :
     (missPath bound lenP nr c (lowerOf off c) (upperOf lenP off c)
@@ -734,20 +767,15 @@ theorem missPath_spec (bound lenP nr off : Int) (c : Chunk) (hoff : 0 ≤ off) (
       ∀ n, (missPath bound lenP nr c (lowerOf off c) (upperOf lenP off c)
         (expectedOf c (lowerOf off c) (upperOf lenP off c))).2 = Outcome.ok n →
         0 ≤ n ∧ n ≤ lenP - nr ∧ (0 < c.n → 0 < n) := by
-  obtain ⟨hco, hsum, hcs0, hgrow⟩ := hc
-  have hlo := lowerOf_eq off c hoff (by omega) hco (by omega)
-  have hup := upperOf_eq lenP off c hoff hl hr hco (by omega) hsum
+  have hgg := chunkContains_true hg
+  obtain ⟨_, _, hlo, hup, hexp⟩ := discards_exact lenP off nr c hoff hnr hnr2 hl hgg
+  obtain ⟨hcs, hco, _, _, _⟩ := hgg
   have hlo0 : 0 ≤ lowerOf off c := by rw [hlo]; exact positive_nonneg _
   have hup0 : 0 ≤ upperOf lenP off c := by rw [hup]; exact positive_nonneg _
-  have hlo1 : lowerOf off c ≤ off := by rw [hlo]; unfold positive; split <;> omega
-  have hup1 : upperOf lenP off c ≤ c.co + c.cs := by rw [hup]; unfold positive; split <;> omega
-  -- the expected size is exact: nothing wraps
-  have hexp : expectedOf c (lowerOf off c) (upperOf lenP off c) = c.cs - upperOf lenP off c - lowerOf off c := by
-    unfold expectedOf
-    rw [wrap64_id (c.cs - upperOf lenP off c) (by omega) (by omega)]
-    rw [wrap64_id _ (by
-      rw [hup, hlo]; unfold positive; split <;> split <;> omega) (by omega)]
-  rw [hexp] at he0 he1 ⊢
+  have hexp' : expectedOf c (lowerOf off c) (upperOf lenP off c) = c.cs - upperOf lenP off c - lowerOf off c := by
+    rw [hexp, hlo, hup]
+  rw [hexp'] at he0 he1 ⊢
+  have hgrow := hc.grow
   generalize lowerOf off c = lower at *
   generalize upperOf lenP off c = upper at *
   unfold missPath
@@ -805,7 +833,7 @@ theorem missPath_noC (bound lenP nr : Int) (c : Chunk) (lower upper expected : I
       · simp [countC, isC]
 
 theorem readLoop_spec (bound lenP off : Int) (script : List Chunk) (nr : Int) (evs : List REv)
-    (hoff : 0 ≤ off) (hl : 0 ≤ lenP) (hr : off + lenP < 9223372036854775808) (hnr : 0 ≤ nr)
+    (hoff : I64 off) (hl : lenP < 9223372036854775808) (hnr : 0 ≤ nr)
     (hs : ∀ c ∈ script, ChunkSane bound c) :
     (readLoop bound lenP off script nr evs).2 ≠ Outcome.panic ∧
       ((∀ c ∈ script, 0 < c.n) →
@@ -837,16 +865,23 @@ theorem readLoop_spec (bound lenP off : Int) (script : List Chunk) (nr : Int) (e
       simp only []
       have hcnt : countC (evs ++ [REv.chunkAt (wrap64 (off + nr))]) = countC evs + 1 := by
         rw [countC_append]; rfl
-      by_cases hg : c.cs ≤ 0 ∨ expectedOf c (lowerOf off c) (upperOf lenP off c) ≤ 0 ∨
+      by_cases hg : chunkContains c.co c.cs (wrap64 (off + nr)) = false ∨
+          expectedOf c (lowerOf off c) (upperOf lenP off c) ≤ 0 ∨
           expectedOf c (lowerOf off c) (upperOf lenP off c) > lenP - nr
       · rw [if_pos hg]
         refine ⟨by simp, fun _ => ?_⟩
         simp only []
         rw [hcnt, if_pos hlt]; omega
       · rw [if_neg hg]
-        have hcs : 0 < c.cs := by omega
-        have he0 : 0 < expectedOf c (lowerOf off c) (upperOf lenP off c) := by omega
-        have he1 : expectedOf c (lowerOf off c) (upperOf lenP off c) ≤ lenP - nr := by omega
+        have hgc : ¬ (chunkContains c.co c.cs (wrap64 (off + nr)) = false) := fun h => hg (Or.inl h)
+        have he0 : 0 < expectedOf c (lowerOf off c) (upperOf lenP off c) := by
+          rcases Int.lt_or_le 0 (expectedOf c (lowerOf off c) (upperOf lenP off c)) with h | h
+          · exact h
+          · exact absurd (Or.inr (Or.inl h)) hg
+        have he1 : expectedOf c (lowerOf off c) (upperOf lenP off c) ≤ lenP - nr := by
+          rcases Int.lt_or_le (lenP - nr) (expectedOf c (lowerOf off c) (upperOf lenP off c)) with h | h
+          · exact absurd (Or.inr (Or.inr h)) hg
+          · exact h
         obtain ⟨hh1, hh2, hh3⟩ := hitRes_spec c nr _ lenP hnr he0 he1
         -- bound shared by both continuing branches
         have step : ∀ (n : Int) (evs' : List REv), 0 ≤ n → n ≤ lenP - nr → countC evs' = countC evs + 1 →
@@ -874,7 +909,7 @@ theorem readLoop_spec (bound lenP off : Int) (script : List Chunk) (nr : Int) (e
             exact ⟨s1, fun hall => s2 hall he0⟩
           | none =>
             simp only []
-            obtain ⟨m1, m2⟩ := missPath_spec bound lenP nr off c hoff hl hr hnr hlt hc hcs he0 he1
+            obtain ⟨m1, m2⟩ := missPath_spec bound lenP nr off c hoff hl hnr hlt hc hgc he0 he1
             have mC := missPath_noC bound lenP nr c (lowerOf off c) (upperOf lenP off c)
               (expectedOf c (lowerOf off c) (upperOf lenP off c))
             rcases hmp : missPath bound lenP nr c (lowerOf off c) (upperOf lenP off c)
@@ -893,3 +928,72 @@ theorem readLoop_spec (bound lenP off : Int) (script : List Chunk) (nr : Int) (e
               obtain ⟨n0, n1, n2⟩ := m2 n rfl
               obtain ⟨s1, s2⟩ := step n _ n0 n1 hcev
               exact ⟨s1, fun hall => s2 hall (n2 (hall c (List.mem_cons_self ..)))⟩
+
+/-! ## Footers: an accepted gzip footer names a non-negative TOC offset (18babb7) -/
+
+theorem parse_tail_nonneg (o : Option Int) (f : Footer)
+    (h : (match o with
+     | none => (Outcome.err : Outcome Footer)
+     | some off => if off < 0 then Outcome.err else Outcome.ok ⟨off, off, 0⟩) = Outcome.ok f) : 0 ≤ f.tocOffset := by
+  cases o with
+  | none => simp at h
+  | some off =>
+    simp only [] at h
+    split at h
+    · simp at h
+    · cases h; simp only []; omega
+
+theorem legacyFooter_nonneg (len : Nat) (hdr : Option (List UInt8)) (f : Footer)
+    (h : legacyFooter len hdr = Outcome.ok f) : 0 ≤ f.tocOffset := by
+  unfold legacyFooter at h
+  split at h
+  · simp at h
+  · split at h
+    · simp at h
+    · rename_i extra
+      split at h
+      · simp at h
+      · rename_i h22
+        have h22 : extra.length = 22 := by simpa using h22
+        rw [sliceB_ok extra 16 extra.length (by omega) (Nat.le_refl _)] at h
+        simp only [ok_bind] at h
+        split at h
+        · simp at h
+        · rw [sliceB_ok extra 0 16 (by omega) (by omega)] at h
+          simp only [ok_bind] at h
+          exact parse_tail_nonneg _ f h
+
+theorem gzipFooter_nonneg (len : Nat) (hdr : Option (List UInt8)) (f : Footer)
+    (h : gzipFooter len hdr = Outcome.ok f) : 0 ≤ f.tocOffset := by
+  unfold gzipFooter at h
+  split at h
+  · simp at h
+  · split at h
+    · simp at h
+    · rename_i extra
+      split at h
+      · simp at h
+      · rename_i h4
+        have h4 : 4 ≤ extra.length := by omega
+        rw [indexB_ok extra 0 (by omega), indexB_ok extra 1 (by omega),
+          sliceB_ok extra 2 4 (by omega) h4, sliceB_ok extra 4 extra.length h4 (Nat.le_refl _)] at h
+        simp only [ok_bind] at h
+        split at h
+        · simp at h
+        · obtain ⟨n, hn⟩ := le16_ok ((extra.drop 2).take (4 - 2)) (by simp; omega)
+          rw [hn] at h
+          simp only [ok_bind] at h
+          split at h
+          · simp at h
+          · split at h
+            · simp at h
+            · rename_i hlen
+              have hlen : ((extra.drop 4).take (extra.length - 4)).length = 22 := by
+                simpa using hlen
+              rw [sliceB_ok _ 16 _ (by omega) (Nat.le_refl _)] at h
+              simp only [ok_bind] at h
+              split at h
+              · simp at h
+              · rw [sliceB_ok _ 0 16 (by omega) (by omega)] at h
+                simp only [ok_bind] at h
+                exact parse_tail_nonneg _ f h
